@@ -230,6 +230,7 @@ package smtp
 //@   before Session.Mail: @C11,C14 ret-value-is-a-known-one: has(args, "RET") ==> upperOf(args["RET"]) == "FULL" || upperOf(args["RET"]) == "HDRS"
 //@   before Session.Mail: @C11,C14 envid-was-well-formed: has(args, "ENVID") ==> xtextDecOK(args["ENVID"]) && xtextDec(args["ENVID"]) != "" && printableASCII(xtextDec(args["ENVID"]))
 //@   before Session.Mail: @C11,C14 auth-was-well-formed: has(args, "AUTH") ==> xtextDecOK(args["AUTH"]) && xtextDec(args["AUTH"]) != "" && (xtextDec(args["AUTH"]) == "<>" ==> deref($2.Auth) == "")
+//@   before Session.Mail: @C11 flags-carry-no-value: (has(args, "SMTPUTF8") ==> args["SMTPUTF8"] == "") && (has(args, "REQUIRETLS") ==> args["REQUIRETLS"] == "")
 //@   before Session.Mail: @C11,C14 only-known-parameters: forall k: string :: has(args, k) ==> k == "SIZE" || k == "SMTPUTF8" || k == "REQUIRETLS" || k == "BODY" || k == "RET" || k == "ENVID" || k == "AUTH"
 //@   before (*Conn).writeResponse: @C12 refused-504-only-if-disabled: $1 == 504 ==> (key == "SMTPUTF8" && !c.server.EnableSMTPUTF8) || (key == "REQUIRETLS" && !c.server.EnableREQUIRETLS) || (key == "BODY" && !c.server.EnableBINARYMIME) || ((key == "RET" || key == "ENVID") && !c.server.EnableDSN)
 //@   loop 1:
@@ -248,6 +249,7 @@ package smtp
 //@     invariant @C11,C14 retok: itvisited("RET") ==> upperOf(args["RET"]) == "FULL" || upperOf(args["RET"]) == "HDRS"
 //@     invariant @C11,C14 envidok: itvisited("ENVID") ==> xtextDecOK(args["ENVID"]) && xtextDec(args["ENVID"]) != "" && printableASCII(xtextDec(args["ENVID"]))
 //@     invariant @C11,C14 authok: itvisited("AUTH") ==> xtextDecOK(args["AUTH"]) && xtextDec(args["AUTH"]) != "" && opts.Auth != nil && (xtextDec(args["AUTH"]) == "<>" ==> deref(opts.Auth) == "")
+//@     invariant @C11 flagvalues: (itvisited("SMTPUTF8") ==> args["SMTPUTF8"] == "") && (itvisited("REQUIRETLS") ==> args["REQUIRETLS"] == "")
 //@     invariant @C11,C14 known: forall k: string :: itvisited(k) ==> k == "SIZE" || k == "SMTPUTF8" || k == "REQUIRETLS" || k == "BODY" || k == "RET" || k == "ENVID" || k == "AUTH"
 //@     invariant args != nil && (forall k: string :: itvisited(k) ==> has(args, k))
 
@@ -320,11 +322,12 @@ package smtp
 //@   prop C11 C19
 //@   fresh argMap if err == nil
 //@   ensures @C11 a-parameter-has-at-most-one-equals-sign: err == nil ==> (forall i :: 0 <= i && i < nfields(s) ==> splitLen(fieldAt(s, i), "=", -1) <= 2)
+//@   ensures @C11 a-value-after-the-equals-sign-is-not-empty: err == nil ==> (forall i :: 0 <= i && i < nfields(s) ==> splitLen(fieldAt(s, i), "=", -1) == 2 ==> splitAt(fieldAt(s, i), "=", -1, 1) != "")
 //@   ensures @C11 every-parameter-is-recorded-under-its-upper-cased-keyword: err == nil ==> (forall i :: 0 <= i && i < nfields(s) ==> has(argMap, upperOf(splitAt(fieldAt(s, i), "=", -1, 0))))
 //@   loop 1:
 //@     invariant argMap != nil && !wasalloc(argMap) && rangeindex < nfields(s)
 //@     invariant len(resultof("strings.Fields", 1, 1)) == nfields(s) && (forall i :: 0 <= i && i < nfields(s) ==> resultof("strings.Fields", 1, 1)[i] == fieldAt(s, i))
-//@     invariant @C11 forall i :: 0 <= i && i <= rangeindex ==> splitLen(fieldAt(s, i), "=", -1) <= 2 && has(argMap, upperOf(splitAt(fieldAt(s, i), "=", -1, 0)))
+//@     invariant @C11 forall i :: 0 <= i && i <= rangeindex ==> splitLen(fieldAt(s, i), "=", -1) <= 2 && has(argMap, upperOf(splitAt(fieldAt(s, i), "=", -1, 0))) && (splitLen(fieldAt(s, i), "=", -1) == 2 ==> splitAt(fieldAt(s, i), "=", -1, 1) != "")
 
 // ---------------------------------------------------------------------------------------
 // STARTTLS, AUTH, command dispatch
